@@ -49,6 +49,9 @@ class Run:
         shutil.rmtree(self.out, ignore_errors=True)
         os.makedirs(self.out)
         os.makedirs(os.path.join(VERIF, "out", "replay"), exist_ok=True)
+        import glob
+        for old in glob.glob(os.path.join(VERIF, "out", "replay", "%s-%s-%d-*.json" % (pid, tier, seed))):
+            os.remove(old)      # replay files of an earlier run with the same (property, tier, seed)
         os.makedirs(os.path.join(VERIF, "out", "bin"), exist_ok=True)
         self.states = 0          # distinct states over all TLC runs
         self.transitions = 0     # generated states over all TLC runs
